@@ -49,7 +49,7 @@ fn bound_f64(r: &Row) -> (f64, bool) {
 }
 
 fn gen_grid(r: &mut Rng) -> Row {
-    let dim = if r.chance(1, 3) { r.range(33, 48) as usize } else { r.range(1, 8) as usize };
+    let dim = if r.chance(1, 5) { r.range(33, 48) as usize } else { r.range(1, 8) as usize };
     let gv = |r: &mut Rng, n: usize| -> Vec<f32> {
         if r.chance(1, 12) {
             return vec![0.0; n];
@@ -86,10 +86,11 @@ fn rand_f32(r: &mut Rng) -> f32 {
 }
 
 fn gen_near(r: &mut Rng) -> Row {
-    let dim = match r.below(4) {
-        0 => r.range(1, 4) as usize,
-        1 => r.range(5, 32) as usize,
-        2 => r.range(33, 40) as usize,
+    let dim = match r.below(20) {
+        0..=5 => r.range(1, 4) as usize,
+        6..=10 => r.range(5, 16) as usize,
+        11..=13 => r.range(17, 32) as usize,
+        14..=17 => r.range(33, 40) as usize,
         _ => r.range(41, 64) as usize,
     };
     let scale = *r.pick(&[1.0f32, 1.0, 0.25, 3.0]);
@@ -164,7 +165,7 @@ pub fn run_stream(n: usize, rng: &mut Rng) -> (Vec<String>, Value, Value) {
     let mut hist = std::collections::HashMap::<String, u64>::new();
     for k in 0..n {
         let mut r = rng.fork(k as u64);
-        if k % 2 == 0 {
+        if k % 5 < 3 {
             let mut row = gen_grid(&mut r);
             let (b, sq) = bound_f64(&row);
             if sq && row.q.len() == row.x.len() && b.is_finite() && (b - row.w as f64).abs() < 1e-5 {
